@@ -2,6 +2,7 @@ package frugal
 
 import (
 	"context"
+	"errors"
 
 	"github.com/apache/thrift/lib/go/thrift"
 )
@@ -67,6 +68,12 @@ func (client *FStandardClient) Call(fctx FContext, method string, args, result t
 	resultTransport, err := client.transport.Request(fctx, payload)
 	if err != nil {
 		return err
+	}
+	if resultTransport == nil {
+		// The transport delivered no response frame (e.g. a peer answered a
+		// two-way call with an empty frame); there is nothing to decode.
+		return thrift.NewTProtocolExceptionWithType(thrift.INVALID_DATA,
+			errors.New("frugal: missing response data for "+method))
 	}
 	return client.processReply(ctx, fctx, method, result, resultTransport)
 }
